@@ -1212,6 +1212,10 @@ func (r *Runner) call(ctx context.Context, pos syntax.Pos, args []string) {
 		r.Params = args[1:]
 		oldInFunc := r.inFunc
 		r.inFunc = true
+		// Like Bash since 4.4, break and continue in a function
+		// do not reach the loops of its callers.
+		oldInLoop, oldLoopDepth := r.inLoop, r.loopDepth
+		r.inLoop, r.loopDepth = false, 0
 
 		// Functions run in a nested scope.
 		// Note that [Runner.exec] below does something similar.
@@ -1224,6 +1228,7 @@ func (r *Runner) call(ctx context.Context, pos syntax.Pos, args []string) {
 
 		r.Params = oldParams
 		r.inFunc = oldInFunc
+		r.inLoop, r.loopDepth = oldInLoop, oldLoopDepth
 		r.exit.returning = false
 		return
 	}
